@@ -86,6 +86,10 @@ type ndRun struct {
 	roots       map[string]node.Root // root id -> real root
 	extraListed int
 	noisy       bool // batches also carry net no-ops (see ndNoise)
+	// reuse: a batch built on a root that this run committed itself continues on the SAME tree object (as the consensus
+	// state tree does from block to block) instead of a tree re-opened from the database
+	reuse bool
+	live  map[string]mkvs.Tree
 }
 
 // ndNoise adds operations without net effect to a batch built on a parent root: remove + re-insert of an unchanged key,
@@ -156,9 +160,20 @@ func (r *ndRun) applyOp(op *ndOp) *ndFail {
 			if !ok {
 				return ndFailf("harness", "unknown parent root %v", op.PC)
 			}
-			t = mkvs.NewWithRoot(nil, r.ndb, pr)
+			pk := ndRootID{pv, op.Ty, op.PC}.key()
+			if lt := r.live[pk]; r.reuse && lt != nil {
+				t = lt
+				delete(r.live, pk)
+			} else {
+				t = mkvs.NewWithRoot(nil, r.ndb, pr)
+			}
 		}
-		defer t.Close()
+		keep := false
+		defer func() {
+			if !keep {
+				t.Close()
+			}
+		}()
 		if r.noisy && op.Parent != "empty" {
 			if err := r.ndNoise(t, op); err != nil {
 				return ndFailf("error", "no-op writes on candidate: %v", err)
@@ -184,6 +199,13 @@ func (r *ndRun) applyOp(op *ndOp) *ndFail {
 			return ndFailf("error", "Commit(v=%d,%s,parent=%s): %v", op.V, op.Ty, op.Parent, err)
 		}
 		r.roots[ndRootID{op.V, op.Ty, op.C}.key()] = node.Root{Namespace: mkNs, Version: op.V, Type: ndType(op.Ty), Hash: h}
+		if r.reuse {
+			nk := ndRootID{op.V, op.Ty, op.C}.key()
+			if old := r.live[nk]; old != nil {
+				old.Close()
+			}
+			r.live[nk], keep = t, true
+		}
 	case "finalize":
 		var rs []node.Root
 		for _, c := range op.Chosen {
@@ -379,6 +401,7 @@ type ndMismatch struct {
 	Steps    []ndStep `json:"steps"`
 	Shape    string   `json:"shape"`
 	Noisy    bool     `json:"noisy_batches"`
+	Reuse    bool     `json:"long_lived_trees"`
 }
 
 // ndShape names the history shape of a failure (used to match known findings narrowly).
@@ -451,13 +474,19 @@ func ndSharesKV(b *ndBehaviour, i int) bool {
 	return false
 }
 
-func ndRunBehaviour(b *ndBehaviour, backend, dir string, noisy bool) (*ndMismatch, int) {
+func ndRunBehaviour(b *ndBehaviour, backend, dir string, noisy bool, reuse ...bool) (*ndMismatch, int) {
 	ndb, err := openNodeDB(backend, dir)
 	if err != nil {
 		return &ndMismatch{Backend: backend, Fail: ndFailf("error", "open: %v", err)}, 0
 	}
 	defer ndb.Close()
-	r := &ndRun{backend: backend, ndb: ndb, ctx: context.Background(), roots: map[string]node.Root{}, noisy: noisy}
+	r := &ndRun{backend: backend, ndb: ndb, ctx: context.Background(), roots: map[string]node.Root{}, noisy: noisy,
+		reuse: len(reuse) > 0 && reuse[0], live: map[string]mkvs.Tree{}}
+	defer func() {
+		for _, t := range r.live {
+			t.Close()
+		}
+	}()
 	n := 0
 	for i := range b.Steps {
 		n++
@@ -484,6 +513,7 @@ func nodedbReplay(args []string) int {
 	every := fs.Int("every", 1, "replay only every k-th behaviour")
 	gated := fs.Bool("gated", false, "run a full reader at every durable-write point of every operation (hook H1)")
 	noise := fs.String("noise", "alt", "batches with net no-op writes: off | alt (every second behaviour) | both (every behaviour is run plain and noisy)")
+	reuse := fs.String("reuse", "both", "also run with tree objects kept across commits: off | alt (every second pair of behaviours) | both (every behaviour)")
 	fs.Parse(args)
 	r, err := openIn(*in)
 	if err != nil {
@@ -564,6 +594,15 @@ func nodedbReplay(args []string) int {
 							}
 						} else if m != nil {
 							m.Noisy = *noise == "alt" && myIdx%2 == 1
+						}
+						if m == nil && *reuse != "off" && (*reuse == "both" || (myIdx/2)%2 == 1) {
+							// the same history once more with long-lived tree objects (plain and with no-op writes in turn)
+							var n2 int
+							m, n2 = ndRunBehaviour(&b, be, "", myIdx%2 == 0, true)
+							n += n2
+							if m != nil {
+								m.Noisy, m.Reuse = myIdx%2 == 0, true
+							}
 						}
 					}
 					mu.Lock()
